@@ -36,6 +36,12 @@ func genBoth(r *core.Rand, tier string) core.Case {
 	if r.Chance(10) {
 		return genCopy(r, tier)
 	}
+	if r.Chance(map[bool]int{false: 2, true: 8}[tier == "thorough"]) {
+		return genMulti(r, tier)
+	}
+	if r.Chance(3) {
+		return genZ(r, tier)
+	}
 	if r.Chance(45) {
 		return genSync(r, tier)
 	}
@@ -63,6 +69,13 @@ func corpusBoth() []core.Case {
 		core.Case{Lines: []string{"@ C10 ring 3", "push 1", "push 2", "pop", "push 3", "push 4", "init 2", "len", "cap", "isempty", "pop", "push 5", "push 6", "push 7", "pop", "init 0", "len"}},
 		// capacity rounding beyond 2^16 (a roundupPowOfTwo that smears only 16 bits is wrong from 2^17+1 on)
 		core.Case{Lines: []string{"@ C10 synccap", "cap 1", "cap 2", "cap 3", "cap 65537", "cap 131072", "cap 131073", "cap 196608", "cap 1048577", "cap 3145728", "cap 4194303", "cap 0", "cap 2147483649"}},
+		// zero-size element types at capacities near math.MaxInt (int arithmetic of Len / IsFull)
+		core.Case{Lines: []string{"@ C10 ringZ 9223372036854775807", "push 0", "push 0", "len", "isfull", "isempty", "pop", "len", "push 0", "push 0", "len", "recap 2", "recap 3", "cap", "isfull", "drain 5", "isempty"}, Tag: "zero-size"},
+		core.Case{Lines: []string{"@ C10 ringA 3", "push 0", "recap 9223372036854775807", "cap", "push 0", "push 0", "len", "isfull", "pop", "pop", "len", "recap 4611686018427387905", "len", "drain 9"}, Tag: "zero-size"},
+		core.Case{Lines: []string{"@ C10 ringZ 4611686018427387903", "push 0", "push 0", "push 0", "pop", "len", "isfull", "recap 9223372036854775806", "len", "cap"}, Tag: "zero-size"},
+		// several independent rings of one size class growing one after the other
+		core.Case{Lines: []string{"@ C10 ringM 1024 1024", "0 fill 1024 1", "0 drain 300", "0 fill 300 5000", "0 xfill 1 9000", "0 cap", "1 fill 1024 20000", "1 xfill 1 30000", "1 cap", "0 len", "0 drain 2000", "1 drain 2000", "0 isempty", "1 isempty"}, Tag: "multi"},
+		core.Case{Lines: []string{"@ C10 ringM 2048 2048 2048", "0 fill 2048 1", "1 fill 2048 10000", "2 fill 2048 20000", "0 xfill 2 30000", "1 xfill 2 31000", "2 xfill 2 32000", "0 drain 3000", "1 drain 3000", "2 drain 3000"}, Tag: "multi"},
 		// struct copies: b := a; a.Init(n) — both must be independent FIFOs afterwards
 		core.Case{Lines: []string{"@ C10 syncC 4 2", "0 push 1", "0 push 2", "0 push 3", "0 pop", "copy 0 1", "0 init 4", "0 push 7", "0 push 8", "1 pop", "1 pop", "1 pop", "0 pop", "1 push 9", "0 len", "1 len", "0 dump", "1 dump"}, Tag: "copy"},
 		core.Case{Lines: []string{"@ C10 syncC 8 2", "0 push 1", "0 push 2", "copy 0 1", "1 init 3", "1 push 5", "0 pop", "1 pop", "0 pop", "0 len", "1 len"}, Tag: "copy"},
@@ -186,6 +199,12 @@ func genSync(r *core.Rand, tier string) core.Case {
 }
 
 func implBoth(c core.Case) []string {
+	if isMulti(c) {
+		return implMulti(c)
+	}
+	if zKind(c) != "" {
+		return implZ(c)
+	}
 	if isSyncSpec(c) {
 		return implSyncSpec(c)
 	}
@@ -205,6 +224,12 @@ func implBoth(c core.Case) []string {
 }
 
 func checkBoth(c core.Case, out []string) *core.Failure {
+	if isMulti(c) {
+		return checkMulti(c, out)
+	}
+	if zKind(c) != "" {
+		return checkLarge(c, out)
+	}
 	if isSyncSpec(c) {
 		sc := core.Case{Lines: append([]string{strings.Replace(c.Lines[0], "syncS", "sync", 1)}, c.Lines[1:]...)}
 		return checkSyncMax(sc, out, 1<<24)
@@ -225,6 +250,16 @@ func checkBoth(c core.Case, out []string) *core.Failure {
 }
 
 func classifyBoth(c core.Case, out []string) []string {
+	if isMulti(c) {
+		return classifyMulti(c, out)
+	}
+	if zKind(c) != "" {
+		hc, _ := strconv.Atoi(core.Toks(c.Lines[0])[3])
+		if hc >= 1<<62 {
+			return []string{"zero-size-elem", "zero-size-cap>=2^62"}
+		}
+		return []string{"zero-size-elem"}
+	}
 	if isSyncSpec(c) {
 		return []string{"sync-spec-big"}
 	}
